@@ -289,6 +289,21 @@ def add_stale(L, rng, args, index, p=0.3, extra_dirs=()):
         if not names:
             continue
         have = set(nd['p'] for nd in L.nodes)
+        if rng.random() < 0.08 and len(nm.encode('utf-8')) < 200:
+            # a crowded trash: the name and its first 99 numbered variants all
+            # belong to complete older entries (trash-put then switches to
+            # random suffixes)
+            for td in cands:
+                if any(h.startswith(td + '/files/' + nm) for h in have):
+                    continue
+                L.add(world.ensure_trash_dirs(td))
+                for j in range(100):
+                    nmj = nm if j == 0 else '%s_%d' % (nm, j)
+                    L.add(world.trash_nodes(
+                        td, nmj, world.trashinfo_text('crowd/%d' % j,
+                                                      '2003-03-03T03:03:03'),
+                        [{'p': '', 't': 'f', 'c': 'crowd %d' % j}]))
+            continue
         for td in cands:
             nm = rng.choice(names)
             if rng.random() < 0.6 and (td + '/files/' + nm) not in have \
